@@ -437,6 +437,15 @@ class Exec(ExprMixin, CallMixin):
                 arg = self.ev(e.args[0], fr)
                 fr.env[var] = self.alist_append(recv, arg) if e.func.attr == "append" else self.alist_extend(recv, arg)
                 return
+        # the same on a list held in an object field: self.X.append(v)
+        if isinstance(e, ast.Call) and isinstance(e.func, ast.Attribute) and isinstance(e.func.value, ast.Attribute) \
+                and isinstance(e.func.value.value, ast.Name) and e.func.attr in ("append", "extend"):
+            owner = fr.env.get(e.func.value.value.id)
+            if isinstance(owner, Obj) and isinstance(owner.fields.get(e.func.value.attr), AList):
+                recv = owner.fields[e.func.value.attr]
+                arg = self.ev(e.args[0], fr)
+                owner.fields[e.func.value.attr] = self.alist_append(recv, arg) if e.func.attr == "append" else self.alist_extend(recv, arg)
+                return
         self.ev(e, fr)
 
     def assign(self, t, v, fr):
@@ -692,8 +701,9 @@ class Exec(ExprMixin, CallMixin):
             n, get = None, None
         assigned = _assigned_names(st.body) | (_assigned_names([ast.Assign(targets=[st.target], value=None)]) if is_for else set())
         for var, shape in spec.modifies.items():
-            if isinstance(shape, ListS) and isinstance(fr.env.get(var), (list, tuple)):
-                fr.env[var] = self.as_alist(fr.env[var], shape.elem, isinstance(fr.env[var], tuple))
+            cur = self._get_path(fr, var)
+            if isinstance(shape, ListS) and isinstance(cur, (list, tuple)):
+                self._set_path(fr, var, self.as_alist(cur, shape.elem, isinstance(cur, tuple)))
         pre_env = dict(fr.env)
         iter_pos0 = it.pos if isinstance(it, IterObj) else None
         # init
@@ -705,7 +715,7 @@ class Exec(ExprMixin, CallMixin):
         k = z3.Int(fresh_name("k"))
         fr.env[f"__k{ordn}"] = k
         for var, shape in spec.modifies.items():
-            fr.env[var] = shape.fresh(var)
+            self._set_path(fr, var, shape.fresh(var.replace(".", "_")))
         for var in assigned:
             if var not in spec.modifies and var in fr.env:
                 fr.env[var] = UNDEF
@@ -744,6 +754,19 @@ class Exec(ExprMixin, CallMixin):
                 if var not in spec.modifies and is_for and var in _assigned_names([ast.Assign(targets=[st.target], value=None)]):
                     fr.env[var] = UNDEF
             self.block(st.orelse, fr)
+
+    def _get_path(self, fr, var):
+        if "." in var:
+            o, f = var.split(".", 1)
+            return fr.env[o].fields.get(f)
+        return fr.env.get(var)
+
+    def _set_path(self, fr, var, val):
+        if "." in var:
+            o, f = var.split(".", 1)
+            fr.env[o].fields[f] = val
+        else:
+            fr.env[var] = val
 
     def while_loop(self, st, fr):
         spec, ordn = self.loop_spec(st, fr)
